@@ -225,7 +225,7 @@ fn gen_jar(rng: &mut Rng, u: &[S], m: &MMappings, t: &MTable, flavor: Flavor) ->
 			super_class: Some(if rng.chance(1, 2) { cps_str(OBJECT) } else { rng.pick(u).clone() }),
 			interfaces: if rng.chance(1, 4) { vec![rng.pick(u).clone()] } else { vec![] }, fields: vec![], methods: vec![], inner: None, encl: None };
 		let in_m = m.classes.iter().find(|x| x.names[0].as_ref() == Some(c));
-		let valid_desc = |d: &S| ref_desc(&|n| n.clone(), d).is_some();
+		let valid_desc = |d: &S| { let j = fbh::classfile::jstr::JStr::from_code_points(d); if d.first() == Some(&('(' as u32)) { raw::parse_method_descriptor(&j).is_ok() } else { raw::check_field_descriptor(&j).is_ok() } };
 		if let Some(mc) = in_m {
 			for f in &mc.fields { if valid_desc(&f.desc) { spec.fields.push((0x0002, f.names[0].clone().unwrap(), f.desc.clone())); } }
 			for me in &mc.methods { if valid_desc(&me.desc) { spec.methods.push(JMethod { access: 0x0009, name: me.names[0].clone().unwrap(), desc: me.desc.clone(), code: None, exceptions: vec![] }); } }
@@ -317,7 +317,8 @@ fn through_world(r: &mut Report, w: &World, stream: &str) -> anyhow::Result<bool
 		};
 		r.violation(what.clone(), replay_text(&what, w, ""));
 	}
-	r.count(match &got_apply { Err(_) => "apply_panic(class without target name)", Ok(None) => "apply_err", Ok(Some(_)) => "apply_ok" });
+	r.count(match &got_apply { Err(_) => "apply_panic", Ok(None) => "apply_err", Ok(Some(_)) => "apply_ok" });
+	if m.classes.iter().any(|c| c.names[1].is_none()) { r.count("apply_with_class_without_target_name"); }
 	r.case(stream, format!("CApply {} {} {}", g_table(t), g_mappings(m), g_outcome(&got_apply)));
 
 	// ---- undo, on the applied mappings (the inverse law) and on the original ones
@@ -383,8 +384,10 @@ fn through_jar(r: &mut Report, w: &World, remap: bool, stream: &str) {
 	let out = match ans {
 		Err(p) => { let what = format!("nest_jar panicked: {p}"); r.violation(what.clone(), jar_replay(&what, w, remap, "")); return; }
 		Ok(None) => {
-			if !j.is_empty() { let what = "nest_jar returned Err on a jar with classes".to_string(); r.violation(what.clone(), jar_replay(&what, w, remap, "")); }
-			r.count("jar_err(no classes)");
+			let bad_encl_desc = remap && rn.applied.iter().any(|n| n.kind != INNER && n.meth.as_ref().map_or(false, |(_, d)| ref_desc(&|x| x.clone(), d).is_none()));
+			if bad_encl_desc { r.count("jar_err(malformed enclosing method descriptor)"); }
+			else if !j.is_empty() { let what = "nest_jar returned Err on a jar with classes".to_string(); r.violation(what.clone(), jar_replay(&what, w, remap, "")); }
+			if j.is_empty() { r.count("jar_err(no classes)"); }
 			r.case(&stream, format!("CJar {} {} {} Err", gbool(remap), g_jar(j), g_table(t)));
 			return;
 		}
@@ -393,6 +396,7 @@ fn through_jar(r: &mut Report, w: &World, remap: bool, stream: &str) {
 	r.count(&format!("jar_applied_{}_of_{}", if rn.applied.len() == t.len() { "all" } else { "some" }, if t.is_empty() { "empty" } else { "table" }));
 	if !rn.created.is_empty() { r.count("jar_enclosing_class_created"); }
 	if rn.created_listed { r.count("jar_created_class_is_itself_listed"); }
+	if rn.created.iter().any(|c| !rn.applied.iter().any(|n| &n.encl == c)) { r.count("jar_enclosing_class_created_for_an_entry_that_is_then_rejected"); }
 	for n in &rn.applied { r.count(match n.kind { ANON => "jar_nested_anonymous", INNER => "jar_nested_inner", _ => "jar_nested_local" }); }
 	// expected: created classes, then the entries of the input in order
 	let min_major = j.iter().map(|c| c.major).min().unwrap_or(52);
@@ -406,6 +410,12 @@ fn through_jar(r: &mut Report, w: &World, remap: bool, stream: &str) {
 	for c in j {
 		let e = expected_class(c, fix.get(&c.name).copied(), &f);
 		expected.push((entry_name(&e.name), Some((e, c.inner.as_ref().map_or(0, |v| v.len())))));
+	}
+	{
+		// two classes end up under one name (the renaming is not injective on this jar): the later
+		// entry replaces the earlier one in the output map; outside the hypotheses, only counted
+		let mut names: std::collections::HashSet<&String> = std::collections::HashSet::new();
+		if !expected.iter().all(|(n, _)| names.insert(n)) { r.count("jar_two_classes_one_name(hypothesis violated, not compared)"); return; }
 	}
 	let mut problems: Vec<String> = vec![];
 	if out.len() != expected.len() { problems.push(format!("{} entries in the output, {} expected", out.len(), expected.len())); }
@@ -504,13 +514,63 @@ fn through_read(r: &mut Report, text: &S, stream: &str, expect_table: Option<&MT
 	}
 }
 
+/// strip_local_class_prefix is private; it is observed as the inner_name of the InnerClasses entry
+fn through_strip(r: &mut Report, inner: &str) {
+	let obj = Some(cps_str(OBJECT));
+	let mk = |name: &str| JSpec { major: 52, access: 0x21, name: cps_str(name), super_class: obj.clone(), interfaces: vec![], fields: vec![], methods: vec![], inner: None, encl: None };
+	let j = vec![mk("A"), mk("B")];
+	let t = vec![MNest { kind: INNER, class: cps_str("B"), encl: cps_str("A"), meth: None, inner: cps_str(inner), access: 0 }];
+	match impl_nest_jar(false, &j, &[], &t) {
+		Ok(Some(out)) => {
+			let got = out.iter().find_map(|(name, e)| match e { OutEntry::Class(b) if name == "B.class" => raw::parse(b).and_then(|rc| facts_from_raw(&rc)).ok(), _ => None })
+				.and_then(|f| f.inner_classes.and_then(|v| v.last().cloned())).and_then(|e| e.inner_name);
+			match got {
+				Some(name) => {
+					let name = name.code_points();
+					let want = strip_prefix_ref(&cps_str(inner));
+					if name != want { let what = format!("inner name {inner:?} is recorded as {:?} in InnerClasses, the documented stripping of the number prefix gives {:?}", show(&name), show(&want)); r.violation(what.clone(), format!("property C14\nwhat: {what}\n")); }
+					r.case("strip", format!("CStrip {} {}", gstr(&cps_str(inner)), gstr(&name)));
+				}
+				None => { let what = format!("no InnerClasses inner_name recorded for inner name {inner:?}"); r.violation(what.clone(), format!("property C14\nwhat: {what}\n")); }
+			}
+		}
+		other => { let what = format!("nest_jar failed on the two-class jar for inner name {inner:?}: {:?}", other.map(|o| o.is_some())); r.violation(what.clone(), format!("property C14\nwhat: {what}\n")); }
+	}
+}
+
+/// a cyclic table (A enclosed by B, B enclosed by A): the real code recurses without bound.  Run in a
+/// child process, because a stack overflow aborts the process; only recorded, never a violation
+/// (cyclic tables are outside the hypotheses).
+fn cycle_probe(r: &mut Report, ctx: &Ctx) {
+	let exe = match std::env::current_exe() { Ok(e) => e, Err(_) => return };
+	let out = std::process::Command::new(exe).arg(ctx.seed.to_string()).arg("quick").arg(&ctx.out).arg("cycle-probe")
+		.stdout(std::process::Stdio::null()).stderr(std::process::Stdio::null()).status();
+	let note = match out {
+		Ok(st) if st.success() => "cyclic table: apply_nests_to_mappings returned normally in the child process".to_string(),
+		Ok(st) => { r.count("cyclic_table_child_process_died"); format!("cyclic table (A in B, B in A): apply_nests_to_mappings does not return; the child process ended with {st} (unbounded recursion; the model runs out of fuel and the theorems assume acyclic tables)") }
+		Err(e) => format!("cycle probe could not be started: {e}"),
+	};
+	r.notes.push(note);
+}
+fn cycle_probe_child() -> ! {
+	let t = vec![
+		MNest { kind: INNER, class: cps_str("A"), encl: cps_str("B"), meth: None, inner: cps_str("A"), access: 0 },
+		MNest { kind: INNER, class: cps_str("B"), encl: cps_str("A"), meth: None, inner: cps_str("B"), access: 0 }];
+	let m = MMappings { ns: vec![cps_str("official"), cps_str("named")], doc: None, classes: vec![MClass { names: vec![Some(cps_str("A")), Some(cps_str("X"))], doc: None, fields: vec![], methods: vec![] }] };
+	let q: Q = to_quill(&m).expect("mappings");
+	let n: Nests<NA> = to_nests(&t);
+	let _ = dukenest::apply_nests_to_mappings(q, &n);
+	std::process::exit(0)
+}
+
 pub fn run(ctx: &Ctx) -> anyhow::Result<Report> {
+	if ctx.replay.as_ref().map_or(false, |p| p.as_os_str() == "cycle-probe") { cycle_probe_child(); }
 	let mut r = Report::new("C14", "C14.Run");
 	let mut rng = Rng::new(ctx.seed);
 	r.shard_size = 200;
-	r.rule = "worlds = (mapping set with 2 namespaces, nests table) over a universe of 2..8 source classes (packages, `$`-nested names, unicode): tables are acyclic by construction (a class is enclosed by an earlier class of the universe or by an outside class), chains of depth 1..5, inner/local/anonymous nests with derived and custom inner names, nests for classes that are in no mapping, target names in Calamus form C_<n> and already nested Encl__Inner; every world goes through remap_nests, apply_nests_to_mappings, undo_nests_to_mappings (on the applied and on the original mappings) and is judged by the independent reference; separate streams violate one hypothesis each: classes without target name (apply panics), a translation that is not injective (an unlisted class carries the name a listed class is renamed to), malformed descriptors / inner names / target names; the nests text format is round-tripped through Nests::read together with malformed lines. A world is non-trivial when apply renamed at least one class; distinct by (table, mappings).".into();
+	r.rule = "worlds = (mapping set with 2 namespaces, nests table) over a universe of 2..8 source classes (packages, `$`-nested names, unicode): tables are acyclic by construction (a class is enclosed by an earlier class of the universe or by an outside class), chains of depth 1..5, inner/local/anonymous nests with derived and custom inner names, nests for classes that are in no mapping, target names in Calamus form C_<n> and already nested Encl__Inner; every world goes through remap_nests, apply_nests_to_mappings, undo_nests_to_mappings (on the applied and on the original mappings) and is judged by the independent reference; separate streams violate one hypothesis each: classes without target name, a translation that is not injective (an unlisted class carries the name a listed class is renamed to), malformed descriptors / inner names / target names; the nests text format is round-tripped through Nests::read together with malformed lines. A world is non-trivial when apply renamed at least one class; distinct by (table, mappings).".into();
 
-	let n = if ctx.thorough { 6000 } else { 900 };
+	let n = if ctx.thorough { 6000 } else { 640 };
 	for i in 0..n {
 		let (flavor, stream) = match i % 10 { 0 => (Flavor::NoDst, "no-target-name"), 1 => (Flavor::Collide, "not-injective"), 2 | 3 => (Flavor::Weird, "weird"), _ => (Flavor::Valid, "world") };
 		let w = gen_world(&mut rng, flavor);
@@ -538,8 +598,10 @@ pub fn run(ctx: &Ctx) -> anyhow::Result<Report> {
 			through_read(&mut r, &bad, "read-malformed", None);
 		}
 	}
+	for inner in ["Foo", "123Foo", "1", "1234", "123Bar4", "0", "00x", "x1", "1$2", "９x", "12ü", "7_"] { through_strip(&mut r, inner); }
+	cycle_probe(&mut r, ctx);
 	// fixed texts
-	for s in ["", "\n", "A\tB\t\t\tC\t1", "A\tB\t\t\tC\t1\n\n", "A\tB\tm\t()V\t1C\t0x0019\r\nA$1\tA\tm\t\t1\t0b1\r\n", "A\tB\t\t()V\t12\t+7", "A\tB\tm\tnot a descriptor\tC\t0", "a/b/C\ta/b/D\t<init>\t(La/b/C;)V\t1\t0", "[A\tB\t\t\tC\t0", "A\tB\t\t\tC\t٣"] {
+	for s in ["", "\n", "A\tB\t\t\tC\t1", "A\tB\t\t\tC\t1\n\n", "A\tB\t\t\tC\t1\r", "A\tB\t\t\tC\t1\r\n", "A\tB\t\t\tC\t1\r\r\n", "\r\n", "\r", "A\tB\t\t\tC\t1\nX\tB\t\t\t2\t2\r", "A\tB\tm\t()V\t1C\t0x0019\r\nA$1\tA\tm\t\t1\t0b1\r\n", "A\tB\t\t()V\t12\t+7", "A\tB\tm\tnot a descriptor\tC\t0", "a/b/C\ta/b/D\t<init>\t(La/b/C;)V\t1\t0", "[A\tB\t\t\tC\t0", "A\tB\t\t\tC\t٣"] {
 		through_read(&mut r, &cps_str(s), "read-fixed", None);
 	}
 	Ok(r)
